@@ -39,6 +39,7 @@ type Op struct {
 	NilCtx   bool     `json:"nil_ctx,omitempty"`    // WithMassive(nil)
 	NilOption bool    `json:"nil_option,omitempty"` // a nil Option among the options
 	EmptyTarget bool  `json:"empty_target,omitempty"` // WithTargetDir("") is passed: documented to mean the current directory
+	Decoys   bool     `json:"decoys,omitempty"`       // every option is preceded by the same option with another value: the last one wins
 }
 
 func (o Op) String() string {
@@ -199,6 +200,21 @@ func opOptions(op Op, ctx context.Context, target string) []gtree.Option {
 	}
 	if op.NilOption {
 		opts = append(opts, nil) // nil options are skipped by the library
+	}
+	if op.Decoys {
+		// options are applied in order, so a later option of the same kind overrides these
+		if op.Encode != 0 {
+			opts = append(opts, []gtree.Option{gtree.WithEncodeTOML(), gtree.WithEncodeJSON(), gtree.WithEncodeYAML()}[op.Encode%3])
+		}
+		if len(op.Branch) == 4 {
+			opts = append(opts, gtree.WithBranchFormatLastNode("?", "??"), gtree.WithBranchFormatIntermedialNode("!", "!!"))
+		}
+		if op.Exts != nil {
+			opts = append(opts, gtree.WithFileExtensions([]string{".decoy", "a"}))
+		}
+		if target != "" || op.EmptyTarget {
+			opts = append(opts, gtree.WithTargetDir("/nonexistent/gtree-sim-decoy-target"))
+		}
 	}
 	switch op.Encode {
 	case 1:
